@@ -11,6 +11,7 @@ import (
 	"fmt"
 	"math"
 	"os"
+	"reflect"
 
 	"github.com/mattn/anko/env"
 	"github.com/mattn/anko/vm"
@@ -148,7 +149,22 @@ func main() {
 	for i := range pool {
 		for j := i; j < len(pool); j++ {
 			a, b := pool[i].goValue(), pool[j].goValue()
-			for prov, set := range map[string]map[string]string{"plain": scripts, "elem": scriptsElem} {
+			provs := []string{"plain", "elem"}
+			// two views of ONE backing array: when a is a proper prefix of b, also compare b[:len(a)] with b
+			if la, ok := a.([]interface{}); ok {
+				if lb, ok := b.([]interface{}); ok && len(la) < len(lb) && reflect.DeepEqual(la, lb[:len(la)]) {
+					provs = append(provs, "shared")
+				}
+			}
+			for _, prov := range provs {
+				set := scripts
+				if prov == "elem" {
+					set = scriptsElem
+				}
+				a, b := a, b
+				if prov == "shared" {
+					a = b.([]interface{})[:len(a.([]interface{}))]
+				}
 				o := map[string]interface{}{"i": i + 1, "j": j + 1, "prov": prov, "problems": []string{}}
 				var problems []string
 				for k, src := range set {
